@@ -57,7 +57,8 @@ class SolverHooks(OpHooks):
             if name == 'proximal':
                 def prox(sigma):
                     k = ('prox', fname, repr(to_rat(sigma)) if is_scalar(
-                        sigma) else repr(sigma))
+                        sigma) else ('vec:' + vs.show(sigma.val) if isinstance(
+                            sigma, Vec) else repr(sigma)))
                     if k not in self.memo:
                         self.memo[k] = I.opsym('prox[%s,%s]' % (fname, k[2]),
                                                dom, dom, False)
@@ -240,6 +241,17 @@ def _pairs(rep, model):
                      [Rat.var('ss0'), Rat.var('ss1')], n], {}, {'x': x})
         return b
 
+    def adu_build_vec(n):
+        # array-like inner step size for the first dual variable
+        def b(e):
+            x = e.vec('x', e.X)
+            L = [e.I.opsym('L0', e.X, e.Y, True),
+                 e.I.opsym('L1', e.X, e.Y2, True)]
+            g = [e.fun('g0', e.Y), e.fun('g1', e.Y2)]
+            return ([x, g, L, Rat.var('step'),
+                     [e.vec('ssv', e.Y), Rat.var('ss1')], n], {}, {'x': x})
+        return b
+
     def dc_build(n):
         def b(e):
             x = e.vec('x', e.X)
@@ -253,12 +265,15 @@ def _pairs(rep, model):
     pairs = [(ADMM, 'admm_linearized', 'admm_linearized_simple', admm_build,
               ['z', 'u']),
              (ADU, 'adupdates', 'adupdates_simple', adu_build, ['duals']),
+             (ADU, 'adupdates', 'adupdates_simple', adu_build_vec,
+              ['duals']),
              (DC, 'doubleprox_dc', 'doubleprox_dc_simple', dc_build, [])]
     for rel, opt, simple, build, state in pairs:
         fn = model.ctx.func(rel, opt)
         model.ctx.func(rel, simple)
         for n in (1, 2, 3):
-            tag = '%s~%s[niter=%d]' % (opt, simple, n)
+            tag = '%s~%s[niter=%d%s]' % (opt, simple, n, ',array step'
+                                         if build is adu_build_vec else '')
             try:
                 a = run(model, rel, opt, build(n), symbolic_zero=True)
                 b = run(model, rel, simple, build(n), symbolic_zero=True)
@@ -440,6 +455,24 @@ def _callbacks(rep, model):
         return [e.I.opsym('A', e.X, e.Y, False), x, e.vec('rhs', e.Y), n], \
             {'omega': Rat.var('omega')}
 
+    def _projection(e):
+        # an in-place projection: x <- P(x)
+        P = vs.OSym('P', False, e.I.reg)
+
+        def proj(v):
+            v.val = P.apply(v.val)
+        return Builtin('projection', proj)
+
+    def landweber_proj(e, x, n, **kw):
+        a, k = landweber(e, x, n)
+        k['projection'] = _projection(e)
+        return a, k
+
+    def kaczmarz_proj(e, x, n, loop='outer'):
+        a, k = kaczmarz(e, x, n, loop)
+        k['projection'] = _projection(e)
+        return a, k
+
     def kaczmarz(e, x, n, loop='outer'):
         ops = [e.I.opsym('A0', e.X, e.Y, False),
                e.I.opsym('A1', e.X, e.Y2, False)]
@@ -494,6 +527,9 @@ def _callbacks(rep, model):
 
     cases = [
         (ITER, 'landweber', landweber, None, 1),
+        (ITER, 'landweber', landweber_proj, None, 1),
+        (ITER, 'kaczmarz', kaczmarz_proj, 'outer', 1),
+        (ITER, 'kaczmarz', kaczmarz_proj, 'inner', 2),
         (ITER, 'kaczmarz', kaczmarz, 'outer', 1),
         (ITER, 'kaczmarz', kaczmarz, 'inner', 2),
         (ITER, 'conjugate_gradient', cg, None, 1),
@@ -513,7 +549,9 @@ def _callbacks(rep, model):
     n_ok = 0
     for rel, name, mk, loop, per_iter in cases:
         fn = model.ctx.func(rel, name)
-        tag = '%s%s' % (name, '[callback_loop=%s]' % loop if loop else '')
+        tag = '%s%s%s' % (name, '[callback_loop=%s]' % loop if loop else '',
+                          '[projection]' if mk.__name__.endswith('_proj')
+                          else '')
         try:
             logs = {}
             finals = {}
